@@ -85,6 +85,7 @@ struct Writer {
   }
   template <class T> auto operator()(T &v) -> decltype(v.io(*this), *this) { v.io(*this); return *this; }
   void nl() { os << "\n"; }
+  bool more() { return true; }
 };
 struct Reader {
   std::istringstream is;
@@ -119,6 +120,7 @@ struct Reader {
   }
   template <class T> auto operator()(T &v) -> decltype(v.io(*this), *this) { v.io(*this); return *this; }
   void nl() {}
+  bool more() { is >> std::ws; return !fail && is.peek() != EOF; }   // optional trailing fields of a record
 };
 
 template <class C> std::string serialize(const C &c, const char *prop) {
